@@ -1431,7 +1431,7 @@ static int _parse_range_list(char *str, struct _range *ranges, int len)
 
     while (str) {
         if (count == len)
-            return -1;
+            seterrno_ret(ERANGE, -1);
         if ((p = strchr(str, ',')))
             *p++ = '\0';
         if (!_parse_single_range(str, &ranges[count++]))
